@@ -111,6 +111,18 @@ Proof.
 Qed.
 Print Assumptions C18_majority_across_raise_refuted.
 
+(* (1e) handleNamespaceMigrate asks the placement for a node (allocNodeForNamespace) only for a partition with at
+        most [replica] replicas: if the placement's panic answer propagates, the partition is not over-replicated.
+        A replica list longer than a lowered factor therefore never reaches the placement from this flow as the
+        partition's own list. *)
+Theorem C18_migrate_consults_placement_only_when_not_over_replicated :
+  forall replica env now r nepoch info cur ep place c r' i' w,
+  1 <= replica ->
+  handle_migrate replica env now r nepoch info cur ep place = (c, r', i', w) -> c = CPanic ->
+  len (raft_nodes info) <= replica.
+Proof. exact migrate_panic_not_over_replicated. Qed.
+Print Assumptions C18_migrate_consults_placement_only_when_not_over_replicated.
+
 (* (2) one step of the history: each attempt is made against the value stored at that moment (chain), never
        decreases MaxRaftID, keeps an id or draws a fresh one above MaxRaftID, adds at most one node, drops
        only a replica that was marked removing, and changes the replica set by at most one member
